@@ -840,6 +840,60 @@ fn apply_inner<P: PT, C: Coll<P>>(c: &mut C, ev: &Value, ctx: &Ctx) -> Option<Ou
             let kind = ev["kind"].as_str().unwrap();
             guarded(|| c.find_from(ctx, &p(), &q, kind))
         }
+        "Alias" => {
+            let Some(map) = c.as_map() else { return None };
+            let how = ev["how"].as_str().unwrap_or("iter");
+            guarded(|| {
+                let Some(mut v) = map.view_mut_at(p()) else { return json!([]) };
+                // every reference stays alive until all of them have been collected
+                let mut addrs: Vec<usize> = vec![];
+                match how {
+                    "iter" => {
+                        let refs: Vec<(&P, &mut i32)> = v.iter_mut().take(LIM).collect();
+                        addrs.extend(refs.iter().map(|(_, r)| (*r) as *const i32 as usize));
+                        for (_, r) in refs {
+                            *r = *r; // touch
+                        }
+                    }
+                    "split" => {
+                        let (l, r) = v.split();
+                        let mut l = l;
+                        let mut r = r;
+                        let lr: Vec<(&P, &mut i32)> = l.as_mut().map(|x| x.iter_mut().take(LIM).collect()).unwrap_or_default();
+                        let rr: Vec<(&P, &mut i32)> = r.as_mut().map(|x| x.iter_mut().take(LIM).collect()).unwrap_or_default();
+                        addrs.extend(lr.iter().map(|(_, r)| (*r) as *const i32 as usize));
+                        addrs.extend(rr.iter().map(|(_, r)| (*r) as *const i32 as usize));
+                    }
+                    _ => {
+                        let (l, r) = v.split();
+                        match (l, r) {
+                            (Some(mut l), Some(r)) => {
+                                let items: Vec<(&P, Option<&mut i32>, Option<&mut i32>)> = l.union_mut(r).take(LIM).collect();
+                                for (_, a, b) in items.iter() {
+                                    if let Some(a) = a {
+                                        addrs.push(&**a as *const i32 as usize);
+                                    }
+                                    if let Some(b) = b {
+                                        addrs.push(&**b as *const i32 as usize);
+                                    }
+                                }
+                            }
+                            (Some(mut l), None) => {
+                                addrs.extend(l.iter_mut().take(LIM).map(|(_, r)| r as *const i32 as usize));
+                            }
+                            (None, Some(mut r)) => {
+                                addrs.extend(r.iter_mut().take(LIM).map(|(_, r)| r as *const i32 as usize));
+                            }
+                            (None, None) => {}
+                        }
+                    }
+                }
+                let n = addrs.len();
+                addrs.sort();
+                addrs.dedup();
+                json!([{"distinct": (addrs.len() == n) as i32, "n": n}])
+            })
+        }
         "ViewSet" | "ViewRemove" | "ViewValueMut" | "ViewIterMut" => {
             let Some(map) = c.as_map() else { return None };
             let k = ev["k"].as_u64().unwrap_or(0) as usize;
